@@ -8,7 +8,7 @@ ID = "C09"
 THEOREMS = ["C09_inline", "C09_undefined_macro", "C09_too_few_arguments", "C09_deferred_argument", "C09_code_splice",
             "C09_code_splice_not_code", "C09_inline_deferred", "C09_deferred_flag", "C09_deferred_assembly",
             "C09_inline_assembly", "C09_inline_assembly_deferred", "C09_code_argument_assembly",
-            "C09_nested_splices_assembly"]
+            "C09_nested_splices_assembly", "C09_mixed_arguments_assembly"]
 RULE = ("generated macro definitions (0-3 parameters, all statement kinds in bodies, local labels, nested calls, code-block "
         "parameters) x argument expressions (literals, constants, backward/forward labels, names equal to parameter names) "
         "x 1-4 applications; each program is compared with the model and with its mechanically inlined twin "
@@ -25,12 +25,13 @@ PROVED_NOTE = ("proved: an application whose arguments evaluate at the call site
                "replaced by the argument's statements (one-level substitution; side condition: no expression uses a code-parameter "
                "name as an identifier, shown necessary); nested splices / nested applications inside the body and the arguments (recursive "
                "substitution) under the condition that no macro applied meanwhile has a parameter of the same name (shown necessary). "
-               "Correspondence-only: a nested application that rebinds the same parameter name, code + deferred arguments mixed (inlined twins).")
+               "Evaluated, deferred and code-block arguments mixed in one application: proved under the union of the side conditions. "
+               "Correspondence-only: a nested application that rebinds the same code-parameter name (inlined twins).")
 MANIFEST = {
     "text": ("Coq theorem over the Gallina model of generate_macro_application (all macros/arguments of the eager kind); model "
              "tied to the code by differential runs; oracle: the implementation's output for the program equals its output for "
              "the mechanically inlined twin."),
-    "note": "Partial only for nested applications rebinding a code-parameter name and code+deferred mixes (twin + correspondence). Trusted: Coq kernel/vm_compute, harness. No axioms.",
+    "note": "Partial only for nested applications rebinding a code-parameter name (twin + correspondence). Trusted: Coq kernel/vm_compute, harness. No axioms.",
     "technique": "Coq proof (definitional equality of expansions) + differential correspondence + inlined twins",
 }
 
